@@ -106,4 +106,21 @@ META = {
         "stub": STUB_WS + ["remote endpoint in server/client modes: scripted HTTP peer with by-construction verdicts"],
         "design_ref": "DESIGN.md section 4, C07",
     },
+    "C12": {
+        "title": "Per-message compression is lossless and negotiated soundly",
+        "budgets": {"quick": (60000, 70), "thorough": (1500000, 1500)},
+        "variants": ALL_VARIANTS,
+        "rule": ("6 of 8 runs: pair world with a PMCE negotiated from a drawn point of the permessage-deflate lattice "
+                 "(offer: accept/request no_context_takeover and max_window_bits 0,9..15; offer-accept: request_*, "
+                 "no_context_takeover / window_bits overrides, mem_level; response-accept overrides) or bzip2 or brotli "
+                 "(snappy is not installed), up to 7 messages per direction (text / repeat-earlier-content / random, "
+                 "0..70000 octets, doNotCompress, auto+explicit fragmentation, frame API, prepared) under a seeded "
+                 "segmentation; 1 of 8: hostile 101 responses (unknown/repeated/duplicated/ill-parameterised/declined "
+                 "extension); 1 of 8: compressed control frames and RSV1 continuation frames among other traffic with "
+                 "compression on; non-trivial = negotiated and >= 2 messages delivered (pair) / split delivery (others); "
+                 "distinct = hash of (configuration, action kind, state) sequence"),
+        "real": REAL_WS,
+        "stub": STUB_WS + ["wire monitor decompressors: zlib / bz2 / brotli used directly"],
+        "design_ref": "DESIGN.md section 4, C12",
+    },
 }
